@@ -257,6 +257,11 @@ pub struct BackendBlk {
 
 #[derive(Clone, Debug, PartialEq, Eq, Hash, Serialize, Deserialize, Default)]
 pub struct Mod {
+    /// order of the statements in the file: bit 0 extern values first, bit 1 all impl blocks at the end
+    /// (instead of after their type), bit 2 `use` lines after the items, bit 3 backend blocks last,
+    /// bit 4 extern types after the items, bit 5 impl blocks before their type
+    #[serde(default)]
+    pub sty: u8,
     /// e.g. ["game", "world"]  ->  game/world.pyxis
     pub path: Vec<String>,
     pub doc: Vec<String>,
@@ -499,39 +504,27 @@ fn raw_str(s: &str) -> String {
 }
 
 pub fn print_mod(m: &Mod) -> String {
-    let mut out = String::new();
+    let mut docs = String::new();
     for l in &m.doc {
-        let _ = writeln!(out, "//!{l}");
+        let _ = writeln!(docs, "//!{l}");
     }
+    let mut uses = String::new();
     for u in &m.uses {
-        let _ = writeln!(out, "use {};", u.join("::"));
+        let _ = writeln!(uses, "use {};", u.join("::"));
     }
+    let mut ext_types = String::new();
     for e in &m.ext_types {
-        let _ = writeln!(
-            out,
-            "#[size({}), align({})]\nextern type {};",
-            e.size.print(),
-            e.align.print(),
-            e.name
-        );
+        let _ = writeln!(ext_types, "#[size({}), align({})]\nextern type {};", e.size.print(), e.align.print(), e.name);
     }
+    let mut backends = String::new();
     for b in &m.backends {
+        let out = &mut backends;
         match b.form {
             1 => {
-                let _ = writeln!(
-                    out,
-                    "backend {} prologue {};",
-                    b.name,
-                    raw_str(b.prologue.as_deref().unwrap_or(""))
-                );
+                let _ = writeln!(out, "backend {} prologue {};", b.name, raw_str(b.prologue.as_deref().unwrap_or("")));
             }
             2 => {
-                let _ = writeln!(
-                    out,
-                    "backend {} epilogue {};",
-                    b.name,
-                    raw_str(b.epilogue.as_deref().unwrap_or(""))
-                );
+                let _ = writeln!(out, "backend {} epilogue {};", b.name, raw_str(b.epilogue.as_deref().unwrap_or("")));
             }
             f => {
                 let _ = writeln!(out, "backend {} {{", b.name);
@@ -553,44 +546,76 @@ pub fn print_mod(m: &Mod) -> String {
             }
         }
     }
+    let print_impl = |out: &mut String, im: &Impl| {
+        let _ = writeln!(out, "impl {} {{", im.ty);
+        for f in &im.funcs {
+            print_func(out, "    ", f);
+        }
+        let _ = writeln!(out, "}}");
+    };
+    let impls_last = m.sty & 2 != 0;
+    let impls_first = m.sty & 32 != 0 && !impls_last;
+    let mut items = String::new();
     for it in &m.items {
+        if impls_first {
+            for im in m.impls.iter().filter(|i| i.ty == it.name()) {
+                print_impl(&mut items, im);
+            }
+        }
         match it {
-            Item::Type(t) => print_type(&mut out, t),
-            Item::Enum(e) => print_enum(&mut out, e),
+            Item::Type(t) => print_type(&mut items, t),
+            Item::Enum(e) => print_enum(&mut items, e),
         }
-        for im in m.impls.iter().filter(|i| i.ty == it.name()) {
-            let _ = writeln!(out, "impl {} {{", im.ty);
-            for f in &im.funcs {
-                print_func(&mut out, "    ", f);
+        if !impls_last && !impls_first {
+            for im in m.impls.iter().filter(|i| i.ty == it.name()) {
+                print_impl(&mut items, im);
             }
-            let _ = writeln!(out, "}}");
         }
     }
-    // impls for names that are not items of this module (rejection cases)
+    let mut tail_impls = String::new();
     for im in &m.impls {
-        if !m.items.iter().any(|i| i.name() == im.ty) {
-            let _ = writeln!(out, "impl {} {{", im.ty);
-            for f in &im.funcs {
-                print_func(&mut out, "    ", f);
-            }
-            let _ = writeln!(out, "}}");
+        // at the end: impls for names that are not items of this module (rejection cases), or all of them
+        if impls_last || !m.items.iter().any(|i| i.name() == im.ty) {
+            print_impl(&mut tail_impls, im);
         }
     }
+    let mut ext_vals = String::new();
     for ev in &m.ext_vals {
         let attrs = ev.addr.iter().map(|a| format!("address({})", a.print())).collect();
-        head(&mut out, "", &ev.doc, attrs, ev.sty);
-        let _ = writeln!(
-            out,
-            "{}extern {}: {};",
-            if ev.vis { "pub " } else { "" },
-            ev.name,
-            ev.ty.print()
-        );
+        head(&mut ext_vals, "", &ev.doc, attrs, ev.sty);
+        let _ = writeln!(ext_vals, "{}extern {}: {};", if ev.vis { "pub " } else { "" }, ev.name, ev.ty.print());
+    }
+    // inner docs must come first; everything else may stand in any order
+    let mut out = docs;
+    if m.sty & 1 != 0 {
+        out.push_str(&ext_vals);
+    }
+    if m.sty & 4 == 0 {
+        out.push_str(&uses);
+    }
+    if m.sty & 16 == 0 {
+        out.push_str(&ext_types);
+    }
+    if m.sty & 8 == 0 {
+        out.push_str(&backends);
+    }
+    out.push_str(&items);
+    out.push_str(&tail_impls);
+    if m.sty & 16 != 0 {
+        out.push_str(&ext_types);
+    }
+    if m.sty & 4 != 0 {
+        out.push_str(&uses);
+    }
+    if m.sty & 1 == 0 {
+        out.push_str(&ext_vals);
+    }
+    if m.sty & 8 != 0 {
+        out.push_str(&backends);
     }
     out
 }
 
-/// (relative input path, text) per module.
 pub fn print_prog(p: &Prog) -> Vec<(String, String)> {
     p.mods.iter().map(|m| (m.rel_path(), print_mod(m))).collect()
 }
@@ -627,6 +652,10 @@ fn tpush(out: &mut Vec<Prog>, p: &Prog, mi: usize, ii: usize, f: &dyn Fn(&mut Ty
 fn reset_sty(q: &mut Prog, mask: u8) {
     let f = |fs: &mut Vec<Func>| fs.iter_mut().for_each(|f| f.sty &= mask);
     for m in &mut q.mods {
+        m.sty &= mask & 0x3f;
+        if mask == 0 {
+            m.sty = 0;
+        }
         for it in &mut m.items {
             match it {
                 Item::Type(t) => {
@@ -803,6 +832,9 @@ pub fn shape_classes(p: &Prog) -> Vec<String> {
         }
         if m.backends.iter().enumerate().any(|(i, b)| m.backends[..i].contains(b)) {
             v.insert("shape:repeated-backend-block");
+        }
+        if m.sty != 0 {
+            v.insert("shape:statements-in-another-order");
         }
         for it in &m.items {
             match it {
